@@ -30,6 +30,14 @@ Definition emb_gs (pad : option nat) (T : nat) (g : nat -> nat -> K) (idx : nat 
   | None => sumn T (fun t => if Nat.eqb (idx t) v then g t d else k0)
   end.
 
+(* ---- nn.EmbeddingBag, modes sum / mean, ONE bag of T entries: y[d] = s * sum_t W[idx t][d] over the entries that do not hold the padding
+   index (s = 1 for sum, 1 / number of non-padding entries for mean: a constant of the bag, not of the parameters) *)
+Definition bag_fwd (pad : option nat) (s : K) (T : nat) (W : nat -> nat -> K) (idx : nat -> nat) (d : nat) : K :=
+  s * sumn T (fun t => emb_fwd pad (fun _ => k0) W idx t d).
+(* index_add_ of s * backprops into the rows named by the non-padding entries *)
+Definition bag_gs (pad : option nat) (s : K) (T : nat) (gb : nat -> K) (idx : nat -> nat) (v d : nat) : K :=
+  emb_gs pad T (fun _ d => s * gb d) idx v d.
+
 (* ---- the affine part of GroupNorm / LayerNorm / InstanceNorm: y[p][c] = xhat[p][c] * w[c] + b[c]  (xhat does not depend on w, b) *)
 Definition norm_fwd (w b : nat -> K) (xhat : nat -> nat -> K) (p c : nat) : K := xhat p c * w c + b c.
 Definition norm_gs_w (P : nat) (g xhat : nat -> nat -> K) (c : nat) : K := sumn P (fun p => xhat p c * g p c).
